@@ -1068,7 +1068,10 @@ impl Transaction {
                 if slip.utxoset_key == [0; UTXO_KEY_LENGTH] {
                     return false;
                 }
-                if !blockchain.is_slip_unlocked(&slip.utxoset_key) {
+                // like the inputs of any other transaction these can only be looked up once the
+                // node holds the whole spendable set (not while it reloads a chain whose older
+                // blocks have been purged)
+                if validate_against_utxo && !blockchain.is_slip_unlocked(&slip.utxoset_key) {
                     return false;
                 }
                 let utxo_slip = Slip::parse_slip_from_utxokey(&slip.utxoset_key).unwrap();
